@@ -26,7 +26,7 @@ type Schema struct {
 	// Directory is stored here. The other one is not stored to avoid
 	// duplication (the information is already accessible through the
 	// inverse relationship).
-	rels map[string]Rel
+	rels map[Rel]struct{}
 }
 
 // AddType adds a type to the schema.
@@ -141,7 +141,7 @@ func (s *Schema) Rels() []Rel {
 	s.buildRels()
 
 	rels := make([]Rel, 0, len(s.rels))
-	for _, rel := range s.rels {
+	for rel := range s.rels {
 		rels = append(rels, rel)
 	}
 
@@ -250,12 +250,15 @@ func (s *Schema) Check() []error {
 // buildRels builds the set of normalized relationships that is returned by
 // Schema.Rels.
 func (s *Schema) buildRels() {
-	s.rels = map[string]Rel{}
+	s.rels = map[Rel]struct{}{}
 
 	for _, typ := range s.Types {
 		for _, rel := range typ.Rels {
-			relName := rel.String()
-			s.rels[relName] = rel.Normalize()
+			// The set is keyed by the normalized relationship itself.
+			// Rel.String is not usable as a key: it joins the names
+			// with underscores, which names may contain, so two
+			// different relationships can have the same string.
+			s.rels[rel.Normalize()] = struct{}{}
 		}
 	}
 }
